@@ -15,7 +15,8 @@ CLAIMS = {
          "and the graceful return dominates everything that can evaluate; each documented invalid-argument class has a guard; exit-code "
          "and parameter registries agree between code, result object and docs; unknown key ends in ValueError; explicit raises reachable "
          "from solve are documented/opt-in; exit_info is never None where it is dereferenced; no local can be read before assignment (exceptions frozen with reasons, their "
-         "premises such as a parameter lower bound re-checked); every parameter update made by the package itself is guarded so that it cannot be a second update of a key the user set. Not a claim about implicit NumPy/SciPy exceptions.",
+         "premises such as a parameter lower bound re-checked); every parameter update made by the package itself is guarded so that it cannot be a second update of a key the user set (truth-table entailment for flags); each type validator "
+         "accepts only when isinstance(value, type) holds for the value it was given; the restart geometry loop cannot index past its list. Not a claim about implicit NumPy/SciPy exceptions.",
          "Trusted: CPython ast, purpose-built receiver resolution (0 unresolved calls, reported in evidence), frozen table of documented invalid-argument classes in dfv/tables.py.",
          "DESIGN.md 4/C07"),
  "C20": ("AST table agreement (to_dict / from_dict / __init__ / __str__), nullable-flow of None->NaN per field, belief-based (contradiction) guard analysis on __str__'s CFG, "
@@ -32,7 +33,8 @@ CLAIMS = {
          "Static decision on every path and every call site of the structure that makes the budget and the counters exact: objfun is called in one function reached "
          "from 3 sites; each evaluation is reached only in typestate 'NF<MAXFUN tested, NF incremented once'; the unguarded x0 evaluation is covered by an obligation "
          "proved at each call site of solve_main; soln.nf/nx slice back only to the counters and no stale local is returned after hand-over to the Controller; NX is "
-         "incremented exactly once per point before the first sample and the evaluated x is loop-invariant; every sample count originates from max(nsamples(..),1). "
+         "incremented exactly once per point before the first sample and the evaluated x is loop-invariant; every sample count originates from max(nsamples(..),1) and the sampling loop "
+         "can end early only under the budget guard. "
          "The statement is itself structural, so this is essentially the whole property.",
          "Trusted: CPython ast; CFG/dominators (networkx); counters identified as whatever flows into the 'Function eval %i at point %i' log ports.",
          "DESIGN.md 4/C02"),
@@ -40,7 +42,7 @@ CLAIMS = {
          "coherence via reaching definitions and CFG path queries; AST agreement of result tuples; shape analysis of objective stores",
          "Static decision of: xmin_eval_num / jacmin_eval_nums / Model.eval_num[_save] are fed only by the point counter and sample-count fields only by sample "
          "counters; at every change_point/add_new_point/save_point call the four record components derive from the same evaluation, with no other evaluation between "
-         "it and the read of the point counter; slot fields, final selection and hard-restart merge move all components together; each stored objective is "
+         "it and the read of the point counter (stores made through helpers are checked at the helpers' call sites); extra samples are averaged into the slot that received the first one; slot fields, final selection and hard-restart merge move all components together; each stored objective is "
          "sumsq(residual)[+h] with h exactly when it may be set; every exit selects through get_final_results. Not decided: 'to rounding', 'resid is the mean'.",
          "Trusted: CPython ast, reaching definitions, field-based (flow-insensitive) treatment of object fields.",
          "DESIGN.md 4/C03"),
@@ -52,17 +54,19 @@ CLAIMS = {
          "Trusted: CPython ast; CFG; the three record consumers are Model.change_point/add_new_point/save_point.",
          "DESIGN.md 4/C04"),
  "C08": ("finite order-domain decision tables over {None, NaN, lo<hi} for every selection guard (AST interpretation of the guard), NaN-awareness lint for arg-min "
-         "over stored objectives, enclosing-try scan along call-graph reachability to objfun",
+         "over stored objectives, must-pass-through of the incumbent re-selection, enclosing-try scan along call-graph reachability to objfun, who-may-call rule for "
+         "finiteness-checking scipy.linalg routines in logging-only code",
          "Static decision that selection is NaN-total (a NaN candidate never replaces a finite holder, a finite candidate replaces a NaN holder, empty slot filled, "
-         "guard never raises), that arg-min over stored objective values ignores NaN, and that no try statement can swallow an exception raised by the user's objective. "
+         "guard never raises; each row decided by walking the CFG to the store), that arg-min over stored objective values ignores NaN and the re-selection after a re-sample cannot be "
+         "skipped, that no try statement can swallow an exception raised by the user's objective, and that code running only under a logging option cannot raise on non-finite data. "
          "Termination / finiteness of the returned x under faults are not decided.",
          "Trusted: IEEE comparison semantics of NaN as implemented in the table evaluator; numpy.nanargmin ignores NaN.",
          "DESIGN.md 4/C08"),
  "C10": ("control-dependence of every ExitInformation construction on the fact its message states; truth-table entailment over normalised atoms for conditionally "
          "overwritten messages; counting data-flow for nruns over all breaks/continues/returns of solve_main",
          "Static decision, at every construction site of an exit message that states a fact, that the fact is a control dependence (or path-entailed) of the "
-         "construction, and that the run counter is incremented exactly once per run end on every path and threaded through solve. 'rho equals rhoend' (needs rho >= rhoend) "
-         "is not decided.",
+         "construction (values accumulated in locals are expanded through their reaching definitions), that rho can never be below rhoend (interval reasoning shared with C18-8, so "
+         "'rho has reached rhoend' is built exactly at rho == rhoend), and that the run counter is incremented exactly once per run end on every path and threaded through solve.",
          "Trusted: CPython ast; CFG; normalisation of comparisons over a total order (counters are integers).",
          "DESIGN.md 4/C10"),
  "C01": ("abstract interpretation over a coordinate-frame domain {U,A,R,?} with exactness facts (context-sensitive, one run per configuration of scaling/projections/"
@@ -133,16 +137,19 @@ CLAIMS = {
  "C17": ("sibling cross-check of the per-point record across change_point/swap_points/add_new_point/add_new_sample, shape analysis of sample-count and objective stores, "
          "complete decision tables of selection guards, bound check of every store to the incumbent index, guard check of the incumbent re-selection after re-sampling, alias query for the saved-point slot",
          "Static decision that the five per-point arrays move together under relocation/append/replace/re-sample, that sample counts are 1 on replace and +1 on re-sample, that each stored "
-         "objective is sumsq(residual)[+h], that incumbent moves and the final selection have correct tables for ordering, ties, NaN and None, that kopt stays below npt(), that re-selection after a re-sample is skipped only when every value is NaN, and that the saved record never aliases live arrays. "
+         "objective is sumsq(residual)[+h], that incumbent moves and the final selection have correct tables for ordering, ties, NaN and None, that kopt stays below npt(), that re-selection after a re-sample is skipped only when every value is NaN (guards and must-pass-through), that extra samples go to the slot of their point, "
+         "and that the saved record never aliases live arrays. "
          "'stored residual is the arithmetic mean of its samples' is NOT decided.",
          "Trusted: CPython ast; IEEE NaN comparison semantics in the table evaluator.",
          "DESIGN.md 4/C17"),
  "C18": ("forward data-flow of the ordering fact delta >= rho with max/min/literal-factor inference rules, method summaries and validated option implications; writer inventory of rho "
-         "with parameter-table ranges; growth-cap lint; lock-step (stale copy) check of Controller.rhoend vs solve_main's rhoend; per-column append-count data-flow and docs agreement; reflection equivariance of the bound test in done_with_current_rho; counting data-flow for the run counter recorded in the table",
+         "with parameter-table ranges; growth-cap lint; lock-step (stale copy) check of Controller.rhoend vs solve_main's rhoend; per-column append-count data-flow and docs agreement; reflection equivariance of the bound test in done_with_current_rho; counting data-flow for the run counter recorded in the table; "
+         "interval reasoning over the if-chain of reduce_rho and the parameter-table ranges (rho stays in [rhoend, old rho])",
          "Static decision that delta >= rho is provable at every break/continue/return and recording point, that rho has its four writers with non-increasing reducer cases, that growth "
          "of delta is wrapped in min(., 1e10), that the controller's and the main loop's rhoend are rescaled identically, and that the diagnostic table gets exactly one append per "
-         "column per recorded iteration with documented columns. rho > 0, rhoend <= rho and monotone best objective depend on values and are NOT decided.",
-         "Trusted: rho >= 0; rho <= rhobeg (from the writer inventory; geometric-mean case of reduce_rho assumed).",
+         "column per recorded iteration with documented columns; and, by interval reasoning over the cases of reduce_rho and the inclusive ranges of the parameter table, that "
+         "rhoend <= rho, rho > 0 and rho never increases within a run (restart factor of rhoend in (0, 1]). Monotone best objective and 2 <= npt <= max depend on values and are NOT decided.",
+         "Trusted: rhobeg > rhoend > 0 on entry (validated by solve, C07-3); floating-point sqrt/multiplication monotone (the interval reasoning is over the reals).",
          "DESIGN.md 4/C18"),
  "C19": ("guarded taint over the call graph (global-RNG uses vs documented random options, dominance-based guards; documented random options proved off by default from the parameter table), nondeterminism/hidden-state inventory, flow-sensitive ownership "
          "lattice {caller, fresh} over solve with alias summaries of callees",
@@ -200,7 +207,8 @@ def main():
             "serves_properties": [c["property_id"] for c in checks],
             "kind_free_text": "purpose-built static analyser for dfols (python3-vt, stdlib ast + networkx): program model with receiver/callable "
                               "resolution, statement CFG with atomic conditions, dominators/control dependence, reaching definitions, set-of-states "
-                              "forward data-flow, value-flow graph with role provenance, frame typing, finite order-domain decision tables, affine normal forms",
+                              "forward data-flow, value-flow graph with role provenance, frame typing, finite order-domain decision tables decided by CFG walks, affine normal forms, "
+                              "reflection equivariance (sympy as normaliser), helper inlining / wrapped-consumer summaries",
         }],
         "checks": checks,
         "not_applicable": na,
